@@ -91,10 +91,10 @@ def run(prop, tier, seed, seconds):
         for line in changed:
             viol.append((int(line.split()[1]), line))
         for (run_i, infoot, amc, summary) in reports:
-            if infoot or amc:
-                viol.append((run_i, 'ThreadSanitizer: ' + summary + (' [address inside the shared container]' if infoot else ' [amc frame]')))
-            else:
-                faults.append('ThreadSanitizer report outside the shared container and outside amc (harness race?): ' + summary)
+            # every access the harness itself shares between threads is excluded from TSan (IGN regions), so any report comes from
+            # container code (its objects, its buffers, or static storage it introduced); the footprint / frame test only labels it
+            where = ' [address inside the shared container]' if infoot else (' [amc frame]' if amc else ' [static or other storage reached from the container operations]')
+            viol.append((run_i, 'ThreadSanitizer: ' + summary + where))
     known = D.load_known()
     nviol = 0
     seen = set()
@@ -149,7 +149,7 @@ def replay(path):
             r = subprocess.run([binary, 'one', str(base), idx, '-v'], stdout=subprocess.PIPE, stderr=ef, text=True, env=env)
             ef.seek(0)
             reps = parse_reports(ef.read())
-        verdicts.append((len([x for x in reps if x[1] or x[2]]) > 0) or 'bytes_changed=1' in r.stdout)
+        verdicts.append(len(reps) > 0 or 'bytes_changed=1' in r.stdout)
         D.log(r.stdout.strip()[:1000])
     if verdicts[0] != verdicts[1]:
         D.log('HARNESS-FAULT replay verdict not repeatable')
